@@ -633,7 +633,14 @@ Linear_Expression_Impl<Row>
       typename Row2::const_iterator j = y.row.lower_bound(start);
       typename Row2::const_iterator j_last = y.row.lower_bound(end);
 
+      // NOTE: `y' may store zeroes (e.g., when it is a dense row):
+      // they must not be stored in `row', which may be sparse.
       while (i != i_end && i.index() < end && j != j_last) {
+        if (*j == 0) {
+          // Elements of `row' having the same index, if any, are reset below.
+          ++j;
+          continue;
+        }
         if (i.index() < j.index()) {
           i = row.reset(i);
           continue;
@@ -655,9 +662,11 @@ Linear_Expression_Impl<Row>
         i = row.reset(i);
       }
       while (j != j_last) {
-        i = row.insert(i, j.index(), *j);
-        (*i) *= c2;
-        // No need to increment i here.
+        if (*j != 0) {
+          i = row.insert(i, j.index(), *j);
+          (*i) *= c2;
+          // No need to increment i here.
+        }
         ++j;
       }
     }
